@@ -296,6 +296,7 @@ def gen_for(prop):
             cs += stories(r, 2 * NEND * k, second=True)
             # two parts in flight, the first one failing with each documented code, then a second funded set
             cs += [story_case(r.fork(), ending=e, second=True, code0=code) for e in ("two_parts_both_fail", "two_parts_one_done") for code in FAIL_CODES]
+            cs += [one_failed_other_pending_case(r.fork(), code) for code in FAIL_CODES for _ in range(k)]
             cs += crash_sweep(r, (22 if T else 4), 1 if T else 2)
             cs += fault_sweep(r, 11 if T else 3)
             cs += fault_sweep(r, 4 * k, kind="pay", nk=2)
